@@ -152,6 +152,49 @@ def all_tensor_ptrs(agent):
     return out
 
 
+def module_reprs(agent):
+    """class structure of the live module tree of every network (layer classes, activation classes, sizes as printed by torch):
+    a rebuilt network must have the structure of the saved one, not only an equal init dict"""
+    import hashlib
+    import torch
+    a = evo.unwrap(agent)
+    out = {}
+    for n in evo.net_names(a):
+        obj = getattr(a, n)
+        txt = "\n".join(torch.nn.Module.__repr__(getattr(m, "_orig_mod", m)) for m in (obj if isinstance(obj, (list, tuple)) else [obj]))
+        out[n] = hashlib.sha1(txt.encode()).hexdigest()[:12] + ":" + str(len(txt))
+    return out
+
+
+def hp_types(agent):
+    """Python / numpy type of every registered hyper-parameter attribute and of the common scalar attributes"""
+    a = evo.unwrap(agent)
+    hc = a.registry.hp_config
+    names = list(hc.names() if hc else []) + [oc.lr for oc in a.registry.optimizers] + ["index", "gamma", "tau", "batch_size", "learn_step"]
+    return {n: type(getattr(a, n)).__name__ for n in dict.fromkeys(names) if hasattr(a, n)}
+
+
+def _file_hash(path):
+    import hashlib
+    with open(path, "rb") as f:
+        return hashlib.sha1(f.read()).hexdigest()
+
+
+def poke_extremes(agent, seed):
+    """extreme but legal float32 magnitudes written in place into the first tensors of the policy network (largest finite values of
+    both signs, the smallest denormal, negative zero): a checkpoint must give back exactly these bit patterns"""
+    import torch
+    a = evo.unwrap(agent)
+    pol = getattr(a, evo.registry_plus(a)["policy"])
+    vals = [3.0e38, -3.0e38, 1.0e-45, -0.0, 1.0e30, -1.0e-30]
+    with torch.no_grad():
+        for m in (pol if isinstance(pol, (list, tuple)) else [pol]):
+            for k_, t in list(torch.nn.Module.named_parameters(getattr(m, "_orig_mod", m)))[:2]:
+                flat = t.view(-1)
+                for j in range(min(len(vals), flat.numel())):
+                    flat[j] = vals[(j + int(seed)) % len(vals)]
+
+
 def _coq_str(s):
     assert all(32 <= ord(c) < 127 and c != '"' for c in s), s
     return f'(s_of "{s}"%string)'
@@ -246,9 +289,19 @@ class C07(vlib.Driver):
         return [["learn", 0, 1], ["learn", 0, 2], ["learn", 1, 3], ["save", 0], ["load", 0], ["load_into", 0, 1],
                 ["learn", 2, 4], ["learn", 2, 5], ["learn", 2, 6],            # only the agent returned by Algo.load trains
                 ["learn", 1, 7], ["learn", 1, 8],                             # only the agent restored in place trains
+                ["load_into", 0, 1],                                          # the SAME file again into the same agent: rolled back
+                ["load_into", 0, 1],                                          # identical consecutive calls
+                ["load_missing", 1],                                          # a failing load, caught; the agent is used afterwards
                 ["learn", 0, 9], ["act", 0, 10],                              # only the saved original trains / acts
                 ["save", 0], ["load", 1], ["act", 0, 11], ["act", 3, 11, 0],
                 ["learn", 0, 12], ["learn", 3, 12, 0], ["learn", 0, 13], ["learn", 3, 13, 0], ["learn", 0, 14], ["learn", 3, 14, 0]]
+
+    @staticmethod
+    def extreme_ops():
+        """extreme but legal float32 magnitudes in the weights (largest finite values, denormals, negative zero), two identical saves
+        in a row, both load paths; no learn step afterwards (the losses would overflow)"""
+        return [["learn", 0, 1], ["learn", 1, 2], ["poke", 0, 0], ["act", 0, 3], ["save", 0], ["save", 0], ["load", 1], ["load_into", 0, 1],
+                ["act", 0, 4], ["act", 2, 4, 0], ["poke", 1, 3], ["save", 1], ["load_into", 2, 0], ["load_into", 2, 0], ["act", 1, 5], ["act", 0, 5, 1]]
 
     @staticmethod
     def bound_ops():
@@ -373,6 +426,11 @@ class C07(vlib.Driver):
         add("DDPG", "discrete", False, "prelu", 0, 30, ops=P("param", "arch", False, True, 1, False))
         add("MATD3", "vector", False, "prelu", 0, 31, ops=self.oneside_ops())
         add("NeuralUCB", "vector", False, "partial", 0, 32, ops=self.oneside_ops())
+        add("DQN", "vector", False, "partial", 0, 35, ops=self.extreme_ops())
+        add("DDPG", "image", True, "partial", 0, 36, ops=self.extreme_ops())
+        if tier != "quick":
+            for n_, algo in enumerate(algos):
+                add(algo, ["vector", "discrete", "dict", "image"][n_ % 4], False, ["partial", "full", "none"][n_ % 3], 0, 37, ops=self.extreme_ops())
         if tier != "quick":
             for n_, algo in enumerate(algos):
                 fam = ["vector", "image", "discrete", "dict"][n_ % 4]
@@ -481,10 +539,23 @@ class C07(vlib.Driver):
                         pop[op[1]].save_checkpoint(path)
                         files.append(path)
                     elif k == "load":
+                        h0 = _file_hash(files[op[1]])
                         pop.append(cls.load(files[op[1]]))
                         rec["wrapped"] = evo.unwrap(pop[-1]) is not pop[-1]
+                        rec["file_changed"] = _file_hash(files[op[1]]) != h0
                     elif k == "load_into":
+                        h0 = _file_hash(files[op[1]])
                         pop[op[2]].load_checkpoint(files[op[1]])
+                        rec["file_changed"] = _file_hash(files[op[1]]) != h0
+                    elif k == "load_missing":
+                        # a failing call caught by the caller, the same object used afterwards: the path does not exist
+                        try:
+                            pop[op[1]].load_checkpoint(str(FILES / f"ck_{tag}_missing.pt"))
+                            rec["raised"] = None
+                        except Exception as e_:
+                            rec["raised"] = type(e_).__name__
+                    elif k == "poke":
+                        poke_extremes(pop[op[1]], op[2])
                     else:
                         raise ValueError(k)
                 except Exception as e:       # the operation raised: the history stops here, the oracle reports it
@@ -514,6 +585,8 @@ class C07(vlib.Driver):
                 st["opts"][name]["groups"] = json.loads(json.dumps(groups, default=str))
             st["wrapper"] = wrapper_struct(member)
             st["ptrs"] = all_tensor_ptrs(member)
+            st["modrepr"] = module_reprs(member)
+            st["hp_types"] = hp_types(member)
             extra = deep_wrapper_slots(member, {tuple(s_[2]) for s_ in ag["slots"]})
             # tensors inside the user's net_config dictionary (e.g. the sample_input that multi-agent image networks write into it) are
             # read-only constants of a configuration object that a population shares by construction: not agent state
@@ -573,6 +646,11 @@ class C07(vlib.Driver):
                 else:
                     mk = f"(MHp {tab.name(label)} {evo._q(a['hps'][label])})"
                 ops.append(f"CEvo (Mutate {i}%nat {mk} [{shapes}] {tab.label(label)})")
+            elif k == "load_missing":
+                ops.append("CEvo (Discard 9999%nat)")       # a failed load changes nothing: a no-op of the model
+            elif k == "poke":
+                st = after[op[1]]["struct"]["opts"]           # in-place write of the policy's cells: a subset of a learn step's footprint
+                ops.append("CEvo (Learn {}%nat [{}])".format(op[1], "; ".join(f"({tab.name(o)}, {d['nstate']}%nat)" for o, d in st.items())))
             elif k == "save":
                 ops.append(f"CSave {op[1]}%nat")
             elif k == "load":
@@ -683,7 +761,19 @@ class C07(vlib.Driver):
                 for j in range(len(before)):
                     if j != op[1] and not unchanged(before[j], after[j], j, what, self._origin(case, t, op[1]) or "loop"):
                         break
+            elif k == "load_missing":
+                if rec.get("raised") is None:
+                    out.append(Violation("restore", sig("missing-file", "load_into", "no-error"), f"{what}: load_checkpoint of a path that does not exist did not raise"))
+                for j in range(len(before)):      # ... and the failed call leaves everybody (the caller included) as they were
+                    if not unchanged(before[j], after[j], j, what + " (failed load)", "load_into"):
+                        break
+            elif k == "poke":
+                for j in range(len(before)):
+                    if j != op[1] and not unchanged(before[j], after[j], j, what, "loop"):
+                        break
             if k in ("load", "load_into"):
+                if rec.get("file_changed"):
+                    out.append(Violation("restore", sig("file-modified", path, "file"), f"{what}: the checkpoint file was modified by reading it"))
                 shared_ptrs(after, what, path)
                 shared_census(after, what, path)
             if len(out) > 8:
@@ -776,6 +866,13 @@ class C07(vlib.Driver):
                                      f"{y['lrs']} (restored); state tensors {x['nstate']} vs {y['nstate']}; differing param_group entries (group, key, saved, restored) {gd[:6]}"))
             if not y["refs_ok"]:
                 out.append(Violation("restore", sig("restore", path, "optrefs"), f"{what}: optimizer {o} of the restored agent does not hold the restored parameters"))
+        if ps.get("modrepr") != cs.get("modrepr"):
+            d = [n for n in ps.get("modrepr", {}) if ps["modrepr"].get(n) != (cs.get("modrepr") or {}).get(n)]
+            out.append(Violation("restore", sig("restore", path, "module-structure"),
+                                 f"{what}: the module tree (layer / activation classes as printed by torch) of {d} differs between the saved and the restored agent"))
+        if ps.get("hp_types") != cs.get("hp_types"):
+            d = {n: (v, (cs.get("hp_types") or {}).get(n)) for n, v in ps.get("hp_types", {}).items() if (cs.get("hp_types") or {}).get(n) != v}
+            out.append(Violation("restore", sig("restore", path, "hp-type"), f"{what}: numeric type of hyper-parameter attributes differs (saved, restored): {d}"))
         if ps.get("wrapper") != cs.get("wrapper"):
             out.append(Violation("restore", sig("restore", path, "wrapper"), f"{what}: wrapper configuration differs (saved, restored): {ps.get('wrapper')} vs {cs.get('wrapper')}"))
         if ps["books"] != cs["books"] or ps["mut"] != cs["mut"]:
